@@ -51,7 +51,7 @@ def _full_api(ctx, orc, c, tag):
         ans, res = L.call(lambda: c.downgrade(sysm), L.enc_color)
         ctx.case("color.downgrade", [STD_VIA_PALETTE] + fields + [s], ans, shape=f"type{int(c.type)}->sys{s}:{ans[:3]}", sample=f"{c!r}.downgrade({sysm!r})")
         # the cached and the uncached function agree
-        ans2, _ = L.call(lambda: Color.downgrade.__wrapped__(c, sysm), L.enc_color)
+        ans2, _ = L.call(lambda: L.unwrap(Color.downgrade)(c, sysm), L.enc_color)
         ctx.check(ans == ans2, "downgrade:lru_cache", (L.color_key(c), s), f"cached answer {ans} differs from a fresh computation {ans2}")
         if good:
             ctx.check(res is not None, "downgrade:raises", (L.color_key(c), s), f"downgrade raised {ans} on a well-formed colour")
@@ -262,7 +262,7 @@ def run(ctx):
     m_pts += rng.sample(only16, min(len(only16), 3000))
     for key, pal in pals.items():
         rawp = L.raw(pal)
-        match_raw = type(pal).match.__wrapped__
+        match_raw = L.unwrap(type(pal).match)
         pts = m_pts if key != "e" else m_pts[:600]  # 256 distances per call
         for t in pts + rawp[:16]:
             got = pal.match(t)
@@ -327,8 +327,8 @@ def replay(ctx, case):
         fs = orc.evaluate_codes(c, bool(arg), c.get_ansi_codes(foreground=bool(arg)))
     else:
         sysm = ColorSystem(arg)
-        res = Color.downgrade.__wrapped__(c, sysm)
-        fs = orc.evaluate(c, arg, res, Color.downgrade.__wrapped__(res, sysm))
+        res = L.unwrap(Color.downgrade)(c, sysm)
+        fs = orc.evaluate(c, arg, res, L.unwrap(Color.downgrade)(res, sysm))
         print("now:", repr(res), "number", res.number)
     for f in fs:
         print("fails:", f)
